@@ -31,6 +31,8 @@ type lrCase struct {
 
 var reTok = regexp.MustCompile(`t(\d+)`)
 var reErrTok = regexp.MustCompile(`E\d+\{`)
+var reErrVal = regexp.MustCompile(`E\d+\{[^}]*\}`)
+var reEdgeAtom = regexp.MustCompile(`\bt\d+\b|\bE\b`)
 
 // leaves returns the token indices mentioned in a rendered value, in order.
 func leaves(v string) []int {
@@ -132,6 +134,43 @@ func parseOracle(s *GSpec, w []int, out string) string {
 				fmt.Sscan(f[len(f)-1], &en)
 				if b < 0 || en < 0 || b > en || en > len(w) {
 					return "C16: _onBounds called with bounds that are not tokens of the input: " + e
+				}
+			}
+		}
+	}
+	if s.WithBounds && !hasStarF(s) && errorDelivered {
+		// recovery paths: the value handed to _onBounds still shows its outermost tokens; when the first (last) atom of
+		// the tree is a token of the input (not an Error), that token is the first (last) token of the span
+		for _, e := range evs[1:] {
+			if !strings.HasPrefix(e, "B ") {
+				continue
+			}
+			f := strings.Fields(e)
+			if len(f) < 4 {
+				continue
+			}
+			var b, en int
+			fmt.Sscan(f[len(f)-2], &b)
+			fmt.Sscan(f[len(f)-1], &en)
+			val := strings.Join(f[1:len(f)-2], " ")
+			if strings.HasPrefix(val, "[") {
+				continue
+			}
+			atoms := reEdgeAtom.FindAllString(reErrVal.ReplaceAllString(val, "E"), -1)
+			if len(atoms) == 0 {
+				continue
+			}
+			var k int
+			if a := atoms[0]; a != "E" {
+				fmt.Sscan(a[1:], &k)
+				if k != b {
+					return "C16: (recovery path) the first token of the reduced value is not the begin bound: " + e
+				}
+			}
+			if a := atoms[len(atoms)-1]; a != "E" {
+				fmt.Sscan(a[1:], &k)
+				if k != en {
+					return "C16: (recovery path) the last token of the reduced value is not the end bound: " + e
 				}
 			}
 		}
